@@ -1,9 +1,50 @@
 package common
 
-import "encoding/json"
+import (
+	"bytes"
+	"encoding/json"
+	"math/big"
+)
 
 type RunQuery struct {
 	Params json.RawMessage `json:"params,omitempty"`
 	Vars   map[string]any  `json:"vars,omitempty"`
 	Cursor *string         `json:"cursor,omitempty"`
+}
+
+// UnmarshalJSON decodes numbers of vars as float64 when that is lossless, and keeps them as json.Number
+// otherwise: as float64, integers above 2^53 are rounded before they are substituted in the query.
+func (q *RunQuery) UnmarshalJSON(data []byte) error {
+	type runQuery RunQuery
+	dec := json.NewDecoder(bytes.NewReader(data))
+	dec.UseNumber()
+	if err := dec.Decode((*runQuery)(q)); err != nil {
+		return err
+	}
+	for k, v := range q.Vars {
+		q.Vars[k] = losslessNumbers(v)
+	}
+	return nil
+}
+
+func losslessNumbers(v any) any {
+	switch v := v.(type) {
+	case json.Number:
+		if f, err := v.Float64(); err == nil {
+			exact, ok := new(big.Rat).SetString(v.String())
+			if ok && exact.Cmp(new(big.Rat).SetFloat64(f)) == 0 {
+				return f
+			}
+		}
+		return v
+	case []any:
+		for i := range v {
+			v[i] = losslessNumbers(v[i])
+		}
+	case map[string]any:
+		for k := range v {
+			v[k] = losslessNumbers(v[k])
+		}
+	}
+	return v
 }
